@@ -182,6 +182,13 @@ def t3_reexport() -> Iterator[Dict[str, Any]]:
                    mod("views", 1, ops=flat(frm("", "shop", lvl=1), frm("shop", "Report"), cls("SalesReport", "Report"))),
                    mod("models", 1, ops=flat(frm("shop._impl", "Report"), cls("StoredReport", "Report")))],
                   "T3", idiom="package-with-module-of-its-own-name")
+    # names read INSIDE a moved class (bases of a nested class, aliases in its body) still mean what they mean in the module
+    # the class statement was written in - also when the re-exporting module binds the same name to something else
+    yield project([mod("p", pkg=True, ops=[frm("_impl", "X", lvl=1), frm("other", "Helper", lvl=1)], all=["X"]),
+                   mod("_impl", 1, ops=flat(cls("Helper", body=[fn("impl_h")]), fn("tool"),
+                                            cls("X", body=flat(fn("f"), cls("In", "Helper"), alias("h", "Helper"), alias("t", "tool"))))),
+                   mod("other", 1, ops=flat(cls("Helper", body=[fn("other_h")]))),
+                   mod("use", 1, ops=flat(frm("p", "X"), cls("U", "X.In"), alias("uh", "X.h")))], "T3", idiom="names-inside-moved-class")
     # origin lists the name in its own __all__: no move
     yield project([mod("p", pkg=True, ops=[frm("_impl", "X", lvl=1)], all=["X"]),
                    mod("_impl", 1, ops=flat(cls("X")), all=["X"]),
